@@ -37,7 +37,7 @@ var ifaceBinding = map[string]string{
 // Calls on these interfaces use a connection that is not safe for concurrent
 // use: each call is a write of the pseudo field <iface>.wire of the receiver.
 var connIfaces = map[string]bool{
-	"wpg.Conn": true,
+	"wpg.Conn":                   true,
 	"github.com/jackc/pgx/v5.Tx": true,
 }
 
@@ -95,18 +95,18 @@ var opaquePkgs = map[string]string{
 // External constructors whose result is a fresh object.
 var freshCalls = map[string]bool{
 	"(*github.com/jackc/pgx/v5/pgxpool.Pool).Begin": true,
-	"time.NewTicker":   true,
-	"time.Now":         true,
-	"net/http.NewRequest": true,
-	"io.Pipe":          true,
+	"time.NewTicker":           true,
+	"time.Now":                 true,
+	"net/http.NewRequest":      true,
+	"io.Pipe":                  true,
 	"nhooyr.io/websocket.Dial": true,
-	"context.WithTimeout": true,
-	"context.Background": true,
-	"fmt.Errorf":       true,
-	"fmt.Sprintf":      true,
-	"errors.New":       true,
-	"strings.Map":      true,
-	"io.ReadAll":       true,
+	"context.WithTimeout":      true,
+	"context.Background":       true,
+	"fmt.Errorf":               true,
+	"fmt.Sprintf":              true,
+	"errors.New":               true,
+	"strings.Map":              true,
+	"io.ReadAll":               true,
 }
 
 // External functions that write through an argument (index of the argument).
@@ -118,8 +118,23 @@ var extWrites = map[string]int{
 // Synchronisation sites of the anchored files that belong to another
 // property's scope.
 var outOfScope = map[string]string{
-	"shovel.(*Manager).Run":     "start/stop of the manager is property C20 (Manager.running serialises Run)",
-	"shovel.(*Manager).Restart": "property C20",
+	"shovel.(*Manager).": "start, stop and restart of the manager are property C20 (everything of Manager except runTask, which is this skeleton's entry)",
+}
+
+// scopeOf: the declared reason why the synchronisation sites of fn are not in
+// the skeleton ("" when they must be).
+func scopeOf(fn string) string {
+	for prefix, why := range outOfScope {
+		if len(fn) >= len(prefix) && fn[:len(prefix)] == prefix {
+			for _, e := range entries {
+				if fn == e.fn || len(fn) > len(e.fn) && fn[:len(e.fn)+1] == e.fn+"." {
+					return ""
+				}
+			}
+			return why
+		}
+	}
+	return ""
 }
 
 // Functions whose accesses belong to the phase that ATTACHES data to cached
